@@ -532,6 +532,9 @@ func (ex *Exec) invoke(fr *Frame, st *State, pc *Term, cc *ssa.CallCommon, recv 
 
 func (ex *Exec) builtin(fr *Frame, st *State, pc *Term, b *ssa.Builtin, cc *ssa.CallCommon, args []Value, pos token.Pos, site ssa.Instruction) Value {
 	switch b.Name() {
+	case "recover":
+		// every possible panic of the verified code is a separate obligation: under those, nothing is recovered
+		return VIface{C64(0), C64(0)}
 	case "len":
 		switch x := args[0].(type) {
 		case VSlice:
